@@ -542,3 +542,64 @@ def r13_10_cache_slot_is_validated_for_its_own_key(ctx: Ctx) -> RuleResult:
                     else:
                         rr.fail(f.qual, f"the slot of `{k1}` is refilled with an entry made for `{k3}`", ctx.loc(f, n))
     return rr
+
+
+# ------------------------------------------------------------------------------------------- R13.11 derived caches and setters
+
+
+# settable properties whose setter is an acknowledged stub: (class, property) -> reason
+DERIVED_CACHE_REVIEWED = {
+    ("DateTimeFormatInfo", "calendar"): "compatibility layer: the calendar setter is marked TODO in the source ('a bunch of other stuff happens here' in .NET: every per-calendar cache is re-read); the per-calendar culture data comes from ICU, which only exists for the invariant culture here (identical for every calendar id), so no difference is observable and the layer is not claimed",
+}
+
+
+@rule("C13")
+def r13_11_setters_invalidate_derived_caches(ctx: Ctx) -> RuleResult:
+    """A lazily filled slot whose fill expression reads settable properties of the same object is a cache of a *derived* value:
+    `full_date_time_pattern = long_date_pattern + " " + long_time_pattern`.  Each of those setters must reset the slot (directly
+    or through the same-object handler it calls), otherwise what a getter returns after a set depends on whether it was ever
+    called before the set - the answer depends on call history."""
+    rr = RuleResult("R13.11", "every lazily filled slot derived from settable properties of the same object is reset by each of those properties' setters", min_instances=2)
+    M = ctx.M
+    for lst in M.classes.values():
+        for c in lst:
+            if not c.mod.rel.startswith("pyoda_time/") or not c.setters:
+                continue
+            for g in c.methods.values():
+                if isinstance(g.node, ast.Lambda) or g.kind != "property":
+                    continue
+                # if self.__S is None: self.__S = EXPR
+                for n in own_nodes(g.node):
+                    if not (isinstance(n, ast.If) and isinstance(n.test, ast.Compare) and len(n.test.ops) == 1 and isinstance(n.test.ops[0], ast.Is) and isinstance(n.test.left, ast.Attribute) and isinstance(n.test.comparators[0], ast.Constant) and n.test.comparators[0].value is None):
+                        continue
+                    slot = n.test.left.attr
+                    fills = [s for s in n.body if isinstance(s, ast.Assign) and any(isinstance(t, ast.Attribute) and t.attr == slot for t in s.targets)]
+                    if not fills:
+                        continue
+                    reads = {x.attr for x in ast.walk(fills[0].value) if isinstance(x, ast.Attribute) and isinstance(x.value, ast.Name) and x.value.id == "self" and x.attr in c.setters and x.attr != g.name}
+                    for p in sorted(reads):
+                        rr.inst()
+                        if (c.name, p) in DERIVED_CACHE_REVIEWED:
+                            rr.ok({"slot": f"{c.name}.{slot}", "derived from": p, "reviewed": DERIVED_CACHE_REVIEWED[(c.name, p)][:80]})
+                            continue
+                        setter = c.setters[p]
+                        # the setter and the same-object methods it calls (two levels)
+                        work, seen = [setter], set()
+                        resets = False
+                        while work:
+                            h = work.pop()
+                            if id(h) in seen or isinstance(h.node, ast.Lambda):
+                                continue
+                            seen.add(id(h))
+                            for x in own_nodes(h.node):
+                                if isinstance(x, ast.Assign) and isinstance(x.value, ast.Constant) and x.value.value is None and any(isinstance(t, ast.Attribute) and t.attr == slot for t in x.targets):
+                                    resets = True
+                                if isinstance(x, ast.Call) and isinstance(x.func, ast.Attribute) and isinstance(x.func.value, ast.Name) and x.func.value.id == "self" and len(seen) < 6:
+                                    k = M.find_method(c, mangle(c.name, x.func.attr)) or M.find_method(c, x.func.attr)
+                                    if k is not None:
+                                        work.append(k)
+                        if resets:
+                            rr.ok({"slot": f"{c.name}.{slot}", "derived from": p})
+                        else:
+                            rr.fail(setter.qual, f"`{slot}` caches a value derived from `{p}` ({unparse(fills[0].value)[:60]}) but setting `{p}` does not reset it: a value read before the set is returned afterwards", ctx.loc(setter))
+    return rr
